@@ -585,6 +585,12 @@ def run(ctx):
     hash_twins(ctx)
     if ctx.shard == 2 % ctx.nshards:
         derived_sysex_cases(ctx)
+    for si, ln in enumerate((999999, 1000000, 1048577)):
+        if ctx.shard == (4 + si) % ctx.nshards:
+            # a message has no size limit of its own (a file reader's limit is the reader's business)
+            check_message(ctx, 'sysex', {'data': tuple(i % 128 for i in range(ln))}, 1, 0.5, hexcheck=False)
+            ctx.nontrivial(('huge-sysex', ln))
+            ctx.count('cases', 1)
     phase_a(ctx)
     phase_b(ctx)
     phase_e(ctx)
